@@ -136,10 +136,26 @@ func (val *Valuation) rootIn(f *wframe, v ssa.Value) (ssa.Value, *wframe) {
 				}
 			}
 			return v, f
+		case *ssa.Field:
+			// a field of an element of a static table (copied into a range variable)
+			if sv, ok := val.staticField(f, x.X, FieldOf(x)); ok {
+				return sv, nil
+			}
+			return v, f
 		case *ssa.UnOp:
 			// a load from a write-once cell (a spilled parameter or local that a
 			// closure captures): the value stored into it
 			if x.Op == token.MUL {
+				if fa, ok := x.X.(*ssa.FieldAddr); ok {
+					if sv, ok := val.staticFieldAddr(f, fa); ok {
+						return sv, nil
+					}
+				}
+				if ia, ok := x.X.(*ssa.IndexAddr); ok {
+					if e, ok := val.staticElem(f, ia); ok && e.Val != nil {
+						return e.Val, nil
+					}
+				}
 				cell, cf := val.rootIn(f, x.X)
 				if al, ok := cell.(*ssa.Alloc); ok && storesTo(al) == 1 {
 					for _, r := range *al.Referrers() {
@@ -162,6 +178,18 @@ func (val *Valuation) rootIn(f *wframe, v ssa.Value) (ssa.Value, *wframe) {
 				if rs, ok := f.callRes[call]; ok && x.Index < len(rs) && rs[x.Index].val != nil {
 					v, f = rs[x.Index].val, rs[x.Index].fr
 					goto next
+				}
+			}
+			if lk, ok := x.Tuple.(*ssa.Lookup); ok && x.Index == 0 {
+				if e, hit, ok := val.staticLookup(f, lk); ok && hit {
+					return e.Val, nil
+				}
+			}
+			return v, f
+		case *ssa.Lookup:
+			if !x.CommaOk {
+				if e, hit, ok := val.staticLookup(f, x); ok && hit {
+					return e.Val, nil
 				}
 			}
 			return v, f
@@ -249,6 +277,27 @@ func (val *Valuation) evalInt(f *wframe, v ssa.Value, phi map[*ssa.Phi]ssa.Value
 				return val.evalInt(rf, r, nil, depth+1)
 			}
 		}
+	case *ssa.Field:
+		if f != nil {
+			if r, rf := val.rootIn(f, x); r != ssa.Value(x) {
+				return val.evalInt(rf, r, nil, depth+1)
+			}
+		}
+	case *ssa.Call:
+		// len of a static table
+		if bi, ok := x.Call.Value.(*ssa.Builtin); ok && bi.Name() == "len" && f != nil {
+			base, _ := val.rootIn(f, x.Call.Args[0])
+			if g := GlobalOfLoad(base); g != nil {
+				if t := StaticTableOf(g); t != nil {
+					return int64(len(t.Elems)), true
+				}
+			}
+		}
+		if f != nil {
+			if rs, ok := f.callRes[x]; ok && len(rs) == 1 && rs[0].isInt {
+				return rs[0].i, true
+			}
+		}
 	case *ssa.FreeVar:
 		if f != nil {
 			if r, rf := val.rootIn(f, x); r != ssa.Value(x) {
@@ -266,12 +315,6 @@ func (val *Valuation) evalInt(f *wframe, v ssa.Value, phi map[*ssa.Phi]ssa.Value
 		}
 		if in, ok := phi[x]; ok && in != ssa.Value(x) {
 			return val.evalInt(f, in, phi, depth+1)
-		}
-	case *ssa.Call:
-		if f != nil {
-			if rs, ok := f.callRes[x]; ok && len(rs) == 1 && rs[0].isInt {
-				return rs[0].i, true
-			}
 		}
 	case *ssa.Extract:
 		if call, ok := x.Tuple.(*ssa.Call); ok && f != nil {
@@ -369,6 +412,11 @@ func (val *Valuation) evalBool(f *wframe, v ssa.Value, phi map[*ssa.Phi]ssa.Valu
 				return rs[x.Index].b, true
 			}
 		}
+		if lk, ok := x.Tuple.(*ssa.Lookup); ok && x.Index == 1 {
+			if _, hit, ok := val.staticLookup(f, lk); ok {
+				return hit, true
+			}
+		}
 	case *ssa.UnOp:
 		if x.Op == token.NOT {
 			b, ok := val.evalBool(f, x.X, phi, depth+1)
@@ -434,6 +482,106 @@ func (val *Valuation) evalBool(f *wframe, v ssa.Value, phi map[*ssa.Phi]ssa.Valu
 		}
 	}
 	return false, false
+}
+
+// staticLookup: lk reads a static map table with a key that evaluates in
+// frame f; hit tells whether the table has that key.
+func (val *Valuation) staticLookup(f *wframe, lk *ssa.Lookup) (e StaticElem, hit, ok bool) {
+	base, _ := val.rootIn(f, lk.X)
+	g := GlobalOfLoad(base)
+	if g == nil {
+		return e, false, false
+	}
+	t := StaticTableOf(g)
+	if t == nil || !t.IsMap {
+		return e, false, false
+	}
+	k, kok := val.evalInt(f, lk.Index, nil, 0)
+	if !kok {
+		return e, false, false
+	}
+	for _, el := range t.Elems {
+		ek, isC := ConstInt(el.Key)
+		if !isC {
+			return e, false, false
+		}
+		if ek == k {
+			return el, true, true
+		}
+	}
+	return e, false, true
+}
+
+// staticElem: ia addresses element i of a static table (a package-level
+// slice initialised by a literal) with an index that evaluates in frame f.
+func (val *Valuation) staticElem(f *wframe, ia *ssa.IndexAddr) (StaticElem, bool) {
+	base, bf := val.rootIn(f, ia.X)
+	g := GlobalOfLoad(base)
+	if g == nil {
+		return StaticElem{}, false
+	}
+	t := StaticTableOf(g)
+	if t == nil || t.IsMap {
+		return StaticElem{}, false
+	}
+	_ = bf
+	i, ok := val.evalInt(f, ia.Index, nil, 0)
+	if !ok || i < 0 || i >= int64(len(t.Elems)) {
+		return StaticElem{}, false
+	}
+	return t.Elems[i], true
+}
+
+// staticFieldAddr: fa is &table[i].f, or &local.f where local holds a copy of
+// table[i].
+func (val *Valuation) staticFieldAddr(f *wframe, fa *ssa.FieldAddr) (ssa.Value, bool) {
+	fld := FieldOf(fa)
+	if fld == nil {
+		return nil, false
+	}
+	switch b := fa.X.(type) {
+	case *ssa.IndexAddr:
+		if e, ok := val.staticElem(f, b); ok && e.Fields != nil {
+			if v, ok := e.Fields[fld.Name()]; ok {
+				return v, true
+			}
+		}
+	case *ssa.Alloc:
+		// a local struct that was assigned *(&table[i])
+		if b.Referrers() != nil {
+			for _, r := range *b.Referrers() {
+				if st, ok := r.(*ssa.Store); ok && st.Addr == ssa.Value(b) {
+					return val.staticField(f, st.Val, fld)
+				}
+			}
+		}
+	}
+	return nil, false
+}
+
+// staticField: sv is a struct value loaded from a static table element.
+func (val *Valuation) staticField(f *wframe, sv ssa.Value, fld *types.Var) (ssa.Value, bool) {
+	if fld == nil {
+		return nil, false
+	}
+	r, rf := val.rootIn(f, sv)
+	ld, ok := r.(*ssa.UnOp)
+	if !ok || ld.Op != token.MUL {
+		return nil, false
+	}
+	ia, ok := ld.X.(*ssa.IndexAddr)
+	if !ok {
+		return nil, false
+	}
+	if rf == nil {
+		rf = f
+	}
+	if e, ok := val.staticElem(rf, ia); ok && e.Fields != nil {
+		if v, ok := e.Fields[fld.Name()]; ok {
+			return v, true
+		}
+	}
+	return nil, false
 }
 
 // nilness: is v (rooted through phis, parameters and entered calls) the nil
